@@ -99,6 +99,15 @@ def gen_ops(tier, rng):
                 E = sorted(rng.sample(range(n), rng.randint(1, p)))
             subs.append(c10.sub_r(rng, d, p, 64, E, rng.choice(["all", "all", "data"]), []))
         ops.append((f"hist {fam} {opts} {d} {p} ; " + " ; ".join(subs), {"cat": "sequence-" + fam, "E": 1}))
+        # the same missing DATA shards with different missing PARITY shards, mixing Reconstruct and ReconstructData
+        if p >= 2:
+            De = sorted(rng.sample(range(d), rng.randint(1, min(d, p - 1))))
+            subs = []
+            for _ in range(rng.randint(3, 6)):
+                k = rng.randint(0, p - len(De))
+                Pe = sorted(rng.sample(range(d, d + p), k))
+                subs.append(c10.sub_r(rng, d, p, 64, De + Pe, rng.choice(["all", "data", "data"]), []))
+            ops.append((f"hist {fam} {opts} {d} {p} ; " + " ; ".join(subs), {"cat": "sequence-parity-" + fam, "E": 1}))
     if tier == "thorough":
         for (d, p, k) in [(32768, 32768, 1), (32768, 32768, 8192), (1000, 1000, 250), (1000, 1000, 251), (65535, 1, 1), (1, 32768, 100)]:
             E = sorted(rng.sample(range(d + p), k))
